@@ -310,6 +310,70 @@ class Fn(object):
         return None
 
     # -- role helpers: find variables by structure instead of by name ----------------------------------------
+    def const_locals(self):
+        """{decl: value} of the locals that are defined exactly once, by a constant initialiser (named constants)"""
+        if getattr(self, '_const_locals', None) is None:
+            defs = {}
+            for nid, d, rhs, op, lhs in self.assignments():
+                if d and ':' in d:
+                    defs.setdefault(d, []).append((op, rhs))
+            self._const_locals = {d: self.val(l[0][1]) for d, l in defs.items()
+                                  if len(l) == 1 and l[0][0] == 'init' and l[0][1] is not None and self.val(l[0][1]) is not None}
+        return self._const_locals
+
+    def cval(self, nid):
+        """constant value of an expression, also through a named constant local"""
+        v = self.val(nid)
+        if v is None and nid is not None:
+            v = self.const_locals().get(self.ref_decl(self.strip(nid, casts=True)))
+        return v
+
+    def xkey(self, nid, depth=0):
+        """key of an expression; a local that is defined exactly once (by its initialiser) stands for that initialiser"""
+        x = self.strip(nid, casts=True)
+        v = self.nodes.get(x, {})
+        if v.get('k') == 'DeclRefExpr' and v.get('rk') == 'local' and depth < 4:
+            if getattr(self, '_single_defs', None) is None:
+                defs = {}
+                for n2, d, rhs, op, lhs in self.assignments():
+                    if d and ':' in d:
+                        defs.setdefault(d, []).append((op, rhs))
+                self._single_defs = {d: l[0][1] for d, l in defs.items() if len(l) == 1 and l[0][0] == 'init' and l[0][1] is not None}
+            r = self._single_defs.get(v.get('decl'))
+            if r is not None and self.stable_between(r, x):
+                return self.xkey(r, depth + 1)
+        return self.key(nid)
+
+    def def_expr(self, nid, depth=0):
+        """the expression a value comes from: for a local that is defined exactly once (and whose operands are not written
+        in between) its initialiser, otherwise the expression itself"""
+        x = self.strip(nid, casts=True)
+        v = self.nodes.get(x, {})
+        if v.get('k') == 'DeclRefExpr' and v.get('rk') == 'local' and depth < 4:
+            self.xkey(x)    # fills _single_defs
+            r = self._single_defs.get(v.get('decl'))
+            if r is not None and self.stable_between(r, x):
+                return self.def_expr(r, depth + 1)
+        return x
+
+    def stable_between(self, expr, use):
+        """no variable or this-field read by `expr` is assigned on a path from the evaluation of expr to `use`"""
+        pd, pu = self.pos(expr), self.pos(use)
+        if pd is None or pu is None:
+            return False
+        leaves = set()
+        for y in self.walk(expr):
+            d = self.ref_decl(y) if self.nodes[y]['k'] in ('DeclRefExpr', 'MemberExpr') else None
+            if d:
+                leaves.add(d)
+        for nid, d, rhs, op, lhs in self.assignments():
+            if d in leaves and op != 'init':
+                pw = self.pos(nid)
+                if pw is not None and self.reaches_point(pd[0], pw, set(), start_idx=pd[1] + 1) and \
+                        self.reaches_point(pw[0], pu, set(), start_idx=pw[1] + 1):
+                    return False
+        return True
+
     def P(self, i):
         """name of the i-th parameter"""
         if i >= len(self.params):
@@ -911,7 +975,61 @@ def implied(fn, cond, pol, depth=0):
         # constant condition
         truth = bool(v['v'])
         return [[]] if truth == pol else []
+    if k == 'DeclRefExpr' and v.get('rk') == 'local' and depth < 6:
+        sub = _flag_expansion(fn, c, pol, depth)
+        if sub is not None:
+            return sub
     return [[('b', fn.key(c), pol, c)]]
+
+
+def _flag_expansion(fn, c, pol, depth):
+    """a boolean local that is defined once (bool done = a || b;) and tested later stands for its defining condition:
+    returns the DNF implied by that condition, restricted to the atoms whose operands are locals/parameters that are not
+    written on any path between the definition and the test (dropping an atom only weakens what is implied, which is
+    sound for every client that uses these facts to exclude paths); None if the local is not such a flag"""
+    v = fn.nodes[c]
+    d = v.get('decl')
+    if not v.get('bool') and 'bool' not in (v.get('t') or ''):
+        return None
+    cache = fn.__dict__.setdefault('_flagdefs', {})
+    if d not in cache:
+        defs = [(nid, rhs, op) for nid, d2, rhs, op, lhs in fn.assignments() if d2 == d]
+        addr = any(x.get('k') == 'UnaryOperator' and x.get('op') == '&' and fn.ref_decl(x['ch'][0]) == d for x in fn.nodes.values())
+        cache[d] = defs[0] if len(defs) == 1 and defs[0][1] is not None and defs[0][2] in ('init', '=') and not addr else None
+    df = cache[d]
+    if df is None:
+        return None
+    dn, rhs, _ = df
+    pd, pu = fn.pos(dn), fn.pos(c)
+    if pd is None or pu is None:
+        return None
+    sub = implied(fn, rhs, pol, depth + 1)
+    writes = {}
+    for nid, d2, r2, op, lhs in fn.assignments():
+        if d2 and nid != dn:
+            writes.setdefault(d2, []).append(nid)
+
+    def stable(node):
+        if isinstance(node, tuple):
+            return True
+        for x in fn.walk(node):
+            xv = fn.nodes[x]
+            if xv['k'] in ('MemberExpr', 'CallExpr', 'CXXMemberCallExpr', 'CXXOperatorCallExpr', 'ArraySubscriptExpr', 'UnaryOperator'):
+                return False
+            if xv['k'] == 'DeclRefExpr' and xv.get('rk') not in ('enumerator',):
+                if xv.get('rk') not in ('local', 'param'):
+                    return False
+                for w in writes.get(xv.get('decl'), []):
+                    pw = fn.pos(w)
+                    if pw is not None and fn.reaches_point(pd[0], pw, set(), start_idx=pd[1] + 1) and \
+                            fn.reaches_point(pw[0], pu, set(), start_idx=pw[1] + 1):
+                        return False
+        return True
+    out = []
+    for conj in sub:
+        out.append([a for a in conj if (stable(a[1]) and stable(a[3])) if a[0] == 'cmp'] +
+                   [a for a in conj if a[0] == 'b' and stable(a[3])])
+    return out
 
 
 def atom_key(fn, a):
